@@ -287,16 +287,20 @@ public:
     }
 
     // link layer: transmit_pending_l2cap_output: poll until nothing is pending
-    void poll()
+    // poll_one(): the link layer had only one free transmit buffer (transmit_pending_l2cap_output() stops after one PDU);
+    // whatever else is pending stays pending across the next state change
+    void poll_one() { poll(1); verif::mon("C34").cls("poll_single_pdu"); }
+    void poll(int max_pdus = 8)
     {
         ++step_no;
-        for (int i = 0; i < 8; ++i) {
+        for (int i = 0; i < max_pdus; ++i) {
             verif::exact_buffer ob(port.mtu);
             std::size_t out_n = port.mtu;
             verif::ctx_op("l2cap_output");
             port.output(ob.data(), out_n);
             if (out_n > port.mtu) { viol("C32", "C32:output:size_exceeds_buffer", "out_size " + std::to_string(out_n)); out_n = port.mtu; }
             verif::mon("C34").eval();
+            if (!encrypted_model && have_armed && encinfo_sent == 1 && centralid_sent == 0) verif::mon("C34").cls("poll_unencrypted_between_ltk_and_ediv_rand");
             if (out_n == 0 || (ob.data()[0] != 0x06 && ob.data()[0] != 0x07)) {
                 // nothing distributed by this call: the situation is what makes the observation interesting
                 verif::mon("C34").cls(encrypted_model ? (have_armed ? "poll_encrypted_nothing_pending_or_sent" : "poll_encrypted_never_armed") : (have_armed ? "poll_unencrypted_keys_pending" : "poll_unencrypted"));
@@ -310,7 +314,7 @@ public:
             spontaneous(out);
             drain_bond_log();
         }
-        viol("C32", "C32:hang:l2cap_output_never_empty", "8 consecutive PDUs from l2cap_output");
+        if (max_pdus >= 8) viol("C32", "C32:hang:l2cap_output_never_empty", "8 consecutive PDUs from l2cap_output");
         after_action();
     }
 
